@@ -812,7 +812,8 @@ fn generic_reduce_inner(
             rowsed.pop_row();
         }
         rowsed.validate();
-        rowsed.meta.set_per_meta(per_meta.clone());
+        let per_meta = per_meta.clone().fitting(rowsed.row_count());
+        rowsed.meta.set_per_meta(per_meta);
         Ok(rowsed)
     }
 }
